@@ -705,7 +705,7 @@ impl Gen {
                 let n = self.rng.usize(3);
                 (Term::Lit(Lit::Bin(self.rng.bytes(n))), Ty::Bin)
             }
-            9 => {
+            9 | 11 => {
                 self.feat("string");
                 let words = ["", "a", "hi", "foo", "zz top"];
                 (Term::Str(words[self.rng.usize(words.len())].to_string()), Ty::str_())
@@ -821,6 +821,11 @@ impl Gen {
         if tin.sub(&int2()) {
             opts.push(("builtin-on-flow", 8));
         }
+        // a string with holes: needs a `Str` to put into a hole (a variable, the flowing value)
+        let str_vars: Vec<String> = data_vars.iter().filter(|v| v.ty == Ty::str_()).map(|v| v.name.clone()).collect();
+        if !str_vars.is_empty() || *tin == Ty::str_() {
+            opts.push(("interp", 6));
+        }
         let total: u64 = opts.iter().map(|o| o.1).sum();
         let mut r = self.rng.below(total);
         let mut kind = opts[0].0;
@@ -835,6 +840,36 @@ impl Gen {
             "lit" => {
                 let (t, ty) = self.gen_lit();
                 (vec![t], ty, None)
+            }
+            "interp" => {
+                // `"{x}"` (a string that is nothing but one hole), `"a{x}"`, `"{~}-{x}"`, …
+                let words = ["", "", "a", "hi ", "-", "="];
+                let nholes = if self.chance(2, 3) { 1 } else { 2 };
+                let mut segs = vec![];
+                for h in 0..nholes {
+                    if h > 0 || self.chance(1, 2) {
+                        let w = words[self.rng.usize(words.len())];
+                        if !w.is_empty() {
+                            segs.push(Seg::Text(w.to_string()));
+                        }
+                    }
+                    let hole_terms = if *tin == Ty::str_() && (str_vars.is_empty() || self.chance(1, 2)) {
+                        vec![Term::Access(Src::Ripple, vec![])]
+                    } else if !str_vars.is_empty() {
+                        vec![Term::Access(Src::Var(str_vars[self.rng.usize(str_vars.len())].clone()), vec![])]
+                    } else {
+                        vec![Term::Str("z".into())]
+                    };
+                    segs.push(Seg::Hole(Expr { branches: vec![Branch { cond: vec![Chain::new(hole_terms)], cons: None }] }));
+                }
+                if self.chance(1, 3) {
+                    let w = words[self.rng.usize(words.len())];
+                    if !w.is_empty() {
+                        segs.push(Seg::Text(w.to_string()));
+                    }
+                }
+                self.feat(if segs.len() == 1 { "string-sole-hole" } else { "string-interpolation" });
+                (vec![Term::Interp(segs)], Ty::str_(), None)
             }
             "ripple" => {
                 self.feat("ripple");
